@@ -1,6 +1,9 @@
 """C08 - flow calls bind parameters, defaults and return values; locals are private.
 
-Domain : signatures of 0-4 parameters with a generated suffix of defaults; calls with k positional + a named subset
+Domain : signatures of 0-4 parameters, a generated subset of them with defaults (a suffix, or any placement - also a parameter
+         with a default BEFORE one without, which the grammar accepts), optionally declaring 1-2 return members
+         (`flow f $p0 -> $m0, $m1 = 5`) that the body may assign; the callee ends with `return <expression>`, a bare `return`,
+         `return None` or without a return statement; calls with k positional + a named subset
          of the rest, simple (`f 1 $b=2`) and classic (`f(1, b=2)`) syntax, via `$x = await f`, `await f`,
          `start f as $r` + `match $r.Finished()`; values = scalars/None/bools/strings/lists/dicts as literals or passed
          through an event payload; callee echoes its parameters, reassigns parameters and a local that also exists in
@@ -24,11 +27,18 @@ PID = "C08"
 LEVEL = "exploration"
 CASE_TIMEOUT = 30
 RULE = (
-    "signature: 0-4 params p0..p3, a generated suffix has literal defaults; call: k<=n positional values then a subset of the "
+    "signature: 0-4 params p0..p3, a generated subset has literal defaults: in half of the cases a suffix, in the other half ANY placement "
+    "(`flow f $p0=10 $p1`: a parameter with a default before one without - accepted by the grammar; positional argument i binds to the "
+    "i-th DECLARED parameter; labels default-before-nondefault / positional-into-default-before-nondefault); in 3 of 5 cases the signature "
+    "also declares 1-2 return members (`-> $m0, $m1 = 5`), each with or without a literal default and assigned or not in the body (values "
+    "mostly not None; labels return-membersN, member-holds-value-at-end, returns-none-while-member-holds-value, returns-other-value-than-member); "
+    "call: k<=n positional values then a subset of the "
     "remaining params by name; syntax simple|classic; form assign-await|await|start-ref|activate; values drawn from None/bool/int/float/"
     "str (quotes, newlines, $, braces)/list/dict (depth<=2), as literals or via the payload of a received event; callee: send "
     "Echo(all params), (when the flow is called twice) append in place to list parameters that received their default, reassign some params and the local $loc (also set in the caller), return literal | param | list of params "
-    "| dict of params; a drawn subset of params is also reassigned from its own value ($p = [$p]); in half of the cases the callee is an @override of a base flow declaring another signature (names from p0..p3,q0,q1, other order/count/defaults, before or after the override); sibling leg: two instances of one flow interleaved by events, each changing its own variables. "
+    "| dict of params (params incl. the return members the body assigned) | bare `return` | `return None` (both more often when return members are declared) "
+    "| no return statement (never with `$x = await`); `$x = await f` must assign exactly the value given to `return` - None for a bare return / "
+    "`return None`, whatever the declared return members hold; a drawn subset of params is also reassigned from its own value ($p = [$p]); in half of the cases the callee is an @override of a base flow declaring another signature (names from p0..p3,q0,q1, other order/count/defaults, before or after the override); sibling leg: two instances of one flow interleaved by events, each changing its own variables. "
     "Form activate (1/4 of the calls): `activate f ...` from main or from a helper flow started by main; the callee waits for Tick() after its "
     "echo, then runs the rest of its body (in half of these cases it appends in place to list parameters that received their default) and ends, "
     "so that it is restarted: 0-3 Ticks = restarts, each restarted instance must echo the binding of its activation again (arguments by "
@@ -36,16 +46,25 @@ RULE = (
     "flow follows, built relative to the first: omits-some (proper subset of the first one's arguments, same values), adds-some (all of them + "
     "arguments for parameters the first one left to their default), same-values (any k2 positional + named subset repeating the values the first "
     "one bound), one-differs, mixed; bindings that differ -> two instances, each echoing its own binding at activation and after every restart; "
-    "identical bindings -> one or two instances, every echo shows that binding. Enumerated family (464 cases): 3 signatures x every provision "
+    "identical bindings -> one or two instances, every echo shows that binding. Enumerated families: (a) signatures (154 cases): 1-3 params x every placement of defaults x every provision (k positional + named subset of the "
+    "rest), distinct values, `$x = await`; (b) returns (104 cases): 7 return-member declarations (none / one / two, with / without default, assigned or not) x "
+    "2 signatures x return of nothing / None / 0 / False / '' / [] / a value / the member; (c) activation (464 cases): 3 signatures x every provision "
     "(positional/named/omitted per parameter) of the first activation x (none | every provision of a second one, same values) x restarts, the body "
     "reassigning the first and wrapping the last parameter. "
-    "Non-trivial = the call mixes >=2 of {positional, named, defaulted} or passes a container/None/bool, or two activations with different "
+    "Non-trivial = the call mixes >=2 of {positional, named, defaulted} or passes a container/None/bool, or passes positional arguments to a signature "
+    "with a default before a non-default, or returns None while a declared return member holds a value, or two activations with different "
     "bindings, or a restart after a parameter was reassigned; distinct by case."
 )
 ASSUMPTIONS = [
     "never more positional arguments than parameters (surplus rejection is a mechanism, not part of the statement)",
     "global variables are not used (the statement is about non-global variables)",
     "defaults are literals (evaluated without access to caller variables)",
+    "a parameter with a default may precede one without (flow_params_def_simple/_classic put no order on flow_param_def; such a signature parses and runs); "
+    "'corresponding positional argument' is read as: the i-th positional argument belongs to the i-th declared parameter",
+    "declared return members are variables of the flow instance that a flow reference can read (docs: 'flow attributes'); the docs give them no role in "
+    "`return` ('If no return value is provided None is passed'), so only the value given to `return` is asserted; the initial value of a member (its "
+    "declared default) is never asserted: a return expression names a member only after the body assigned it; what `$x = await f` does when f ends "
+    "WITHOUT a return statement (today the caller fails) is unspecified and not generated, with or without return members",
     "literal strings never contain `$`, `{` or `}` (string interpolation is language syntax); such texts are passed through event payloads instead",
     "in simple call syntax a list literal is never a positional argument (`f 0 [1]` parses as a subscript); `$x = await f` is only used with flows that `return` a value",
     "an activated callee always waits for an event (Tick) before it ends - how often a flow that ends without waiting is restarted is outside the statement; its return value is not observed",
@@ -70,6 +89,8 @@ value = st.recursive(scalar, lambda ch: st.one_of(st.lists(ch, max_size=3), st.d
 lit_text = st.sampled_from(["a", "", "it's", 'say "hi"', "x y", "line1\nline2", "ünï", "100%"])
 lit_scalar = st.one_of(st.none(), st.booleans(), st.integers(0, 50), st.sampled_from([0.5, 2.25]), lit_text)
 lit_value = st.recursive(lit_scalar, lambda ch: st.one_of(st.lists(ch, max_size=3), st.dictionaries(st.sampled_from(["k", "j", "m"]), ch, max_size=2)), max_leaves=5)
+# values of declared return members (default / assigned in the body): mostly not None, so that the member HOLDS a value
+member_value = st.one_of(st.integers(1, 50), st.sampled_from(["member", 0, False, "", 2.25]), st.lists(st.integers(0, 5), max_size=2), st.none())
 literal_safe_scalar = st.one_of(st.none(), st.booleans(), st.integers(0, 50), st.sampled_from([0.5, 2.25]), st.sampled_from(["a", "", "x y", "it's"]))
 
 
@@ -83,12 +104,29 @@ def _case(draw):
         }
     n = draw(st.integers(0, 4))
     ndef = draw(st.integers(0, n))
+    # which parameters declare a default: a suffix of the signature, or ANY subset (the grammar accepts `flow f $a=10 $b`:
+    # a parameter with a default before one without; positional argument i still binds to the i-th DECLARED parameter)
+    if draw(st.booleans()):
+        with_default = set(range(n - ndef, n))
+    else:
+        with_default = set(draw(st.lists(st.sampled_from(range(n)), unique=True, min_size=ndef, max_size=ndef))) if n else set()
     sig = []
     for i in range(n):
         p = {"name": f"p{i}"}
-        if i >= n - ndef:
+        if i in with_default:
             p["default"] = draw(literal_safe_scalar if draw(st.booleans()) else st.lists(literal_safe_scalar, max_size=2))
         sig.append(p)
+    # return members declared in the signature (`flow f $p0 -> $m0, $m1 = 5`): variables of the instance that a flow reference
+    # can read; they are NOT the return value - `$x = await f` assigns what `return` was given (None for a bare `return`)
+    members = []
+    for j in range(draw(st.sampled_from([0, 0, 1, 1, 2]))):
+        m = {"name": f"m{j}"}
+        if draw(st.booleans()):
+            m["default"] = draw(member_value)
+        if draw(st.booleans()):
+            m["set"] = draw(member_value)
+        members.append(m)
+    set_members = [m["name"] for m in members if "set" in m]
     k = draw(st.integers(0, n))
     via_event = draw(st.booleans())
     syntax = draw(st.sampled_from(["simple", "classic"]))
@@ -102,22 +140,30 @@ def _case(draw):
     named = {nm: draw(argval) for nm in named_names}
     assigns = []
     for _ in range(draw(st.integers(0, 2))):
-        target = draw(st.sampled_from([p["name"] for p in sig] + ["loc"]))
+        target = draw(st.sampled_from([p["name"] for p in sig] + ["loc"] + set_members))
         assigns.append([target, draw(lit_value)])
-    kinds = ["literal", "param", "list", "dict"] if n else ["literal"]
+    # variables a return expression may name: parameters and the return members the body assigns
+    ret_names = [p["name"] for p in sig] + set_members
+    kinds = ["literal", "bare"] + (["param", "list", "dict"] if ret_names else [])
+    if members:
+        kinds += ["bare", "none-literal"]  # `return` / `return None` while a declared return member holds a value
     if form != "assign":
         kinds.append("none")  # `$x = await f` with a flow that has no `return` is outside the statement
     ret_kind = draw(st.sampled_from(kinds))
-    ret = {"kind": ret_kind}
+    if ret_kind == "none-literal":
+        ret = {"kind": "literal", "value": None}
+    else:
+        ret = {"kind": ret_kind}
     if ret_kind == "literal":
         ret["value"] = draw(lit_value)
     elif ret_kind == "param":
-        ret["names"] = [draw(st.sampled_from([p["name"] for p in sig]))]
+        ret["names"] = [draw(st.sampled_from(ret_names))]
     elif ret_kind in ("list", "dict"):
-        ret["names"] = draw(st.lists(st.sampled_from([p["name"] for p in sig] + ["loc"]), min_size=1, max_size=3))
+        ret["names"] = draw(st.lists(st.sampled_from(ret_names + ["loc"]), min_size=1, max_size=3))
     case = {
         "leg": "call",
         "sig": sig,
+        "members": members,
         "pos": pos,
         "named": named,
         "syntax": syntax,
@@ -224,7 +270,71 @@ def _provisions(names):
     return out
 
 
+def _plain_call(sig, pos, named, i, **kw):
+    case = {
+        "leg": "call",
+        "sig": sig,
+        "members": [],
+        "pos": pos,
+        "named": named,
+        "syntax": "classic" if i % 2 else "simple",
+        "form": "assign",
+        "via_event": False,
+        "assigns": [],
+        "ret": {"kind": "list", "names": [p["name"] for p in sig]} if sig else {"kind": "literal", "value": "r"},
+        "caller_loc": "main-loc",
+        "repeat": False,
+        "flow_name": "f" if i % 3 else "do thing",
+        "override": None,
+        "wrap": [],
+    }
+    case.update(kw)
+    return case
+
+
+def _signature_family():
+    """Every placement of defaults in signatures of 1-3 parameters (incl. a parameter with a default BEFORE one without) x every
+    argument provision (k positional + a named subset of the rest); distinct values, so that a swapped binding shows."""
+    vals = {"p0": 7, "p1": "one", "p2": False}
+    defaults = {"p0": "d0", "p1": 50, "p2": "d2"}
+    i = 0
+    for n in (1, 2, 3):
+        names = [f"p{j}" for j in range(n)]
+        for mask in range(1 << n):
+            sig = [{"name": nm, **({"default": defaults[nm]} if mask >> j & 1 else {})} for j, nm in enumerate(names)]
+            for k, named in _provisions(names):
+                i += 1
+                yield _plain_call(sig, [vals[nm] for nm in names[:k]], {nm: vals[nm] for nm in named}, i)
+
+
+def _return_family():
+    """Declared return members (none / one / two; with or without default; assigned or not in the body) x what the callee gives
+    to `return` (nothing, None, falsy values, another value, the member itself) - `$x = await f` assigns exactly that."""
+    member_sets = [
+        [],
+        [{"name": "m0"}],
+        [{"name": "m0", "set": "member"}],
+        [{"name": "m0", "default": 5}],
+        [{"name": "m0", "default": 5, "set": [1]}],
+        [{"name": "m0", "set": "member"}, {"name": "m1", "default": 2}],
+        [{"name": "m0"}, {"name": "m1", "set": 0}],
+    ]
+    rets = [{"kind": "bare"}] + [{"kind": "literal", "value": v} for v in (None, 0, False, "", [], "value")]
+    i = 0
+    for members in member_sets:
+        for sig in ([], [{"name": "p0"}, {"name": "p1", "default": 3}]):
+            for ret in rets + ([{"kind": "param", "names": ["m0"]}] if members and "set" in members[0] else []):
+                i += 1
+                yield _plain_call(sig, [1] if sig else [], {}, i, members=members, ret=ret)
+
+
 def enumerate_cases(tier):
+    yield from _activation_family()
+    yield from _signature_family()
+    yield from _return_family()
+
+
+def _activation_family():
     """Activation family: three signatures x every argument provision (positional / named / omitted per parameter) of a first
     activation x (no second activation | every provision of a second one, same values) x restarts; the body reassigns parameters."""
     sigs = [
@@ -308,12 +418,16 @@ def _callee_model(case, pos=None, named=None):
     for nm in _mutated(case):
         env[nm] = list(env[nm]) + [99]
     env["loc"] = "callee-local"
+    for m in case.get("members", ()):
+        if "set" in m:
+            env[m["name"]] = m["set"]
     for target, val in case["assigns"]:
         env[target] = val
     for nm in case.get("wrap", ()):
         env[nm] = [env[nm]]
     r = case["ret"]
-    if r["kind"] == "none":
+    if r["kind"] in ("none", "bare"):
+        # no `return` (not observed through `$x = await`) / a bare `return`: "If no return value is provided None is passed"
         ret = None
     elif r["kind"] == "literal":
         ret = r["value"]
@@ -326,12 +440,39 @@ def _callee_model(case, pos=None, named=None):
     return echo, ret
 
 
+def _members_at_end(case):
+    """What the declared return members hold when the callee ends (labels only: the initial value of a member - its
+    declared default - is not part of the statement and is never asserted)."""
+    held = {m["name"]: m.get("default") for m in case.get("members") or ()}
+    for m in case.get("members") or ():
+        if "set" in m:
+            held[m["name"]] = m["set"]
+    for target, val in case["assigns"]:
+        if target in held:
+            held[target] = val
+    return held
+
+
+def _default_before_nondefault(sig):
+    """Index of the first parameter WITHOUT a default that follows one WITH a default (None: defaults form a suffix)."""
+    seen = False
+    for i, p in enumerate(sig):
+        if "default" in p:
+            seen = True
+        elif seen:
+            return i
+    return None
+
+
 def _program(case):
     lit = smh.lit
     name = case["flow_name"]
     activate = case["form"] == "activate"
     second = case.get("second") if activate else None
     sig = " ".join(f"${p['name']}" + (f"={lit(p['default'])}" if "default" in p else "") for p in case["sig"])
+    members = case.get("members") or []
+    if members:
+        sig += " -> " + ", ".join(f"${m['name']}" + (f" = {lit(m['default'])}" if "default" in m else "") for m in members)
     lines = [f"flow {name} {sig}".rstrip()]
     base = []
     if case.get("override"):
@@ -349,12 +490,17 @@ def _program(case):
         if p["name"] in mutated:
             lines.append(f"  (${p['name']}.append(99))")
     lines.append('  $loc = "callee-local"')
+    for m in members:
+        if "set" in m:
+            lines.append(f"  ${m['name']} = {lit(m['set'])}")
     for target, val in case["assigns"]:
         lines.append(f"  ${target} = {lit(val)}")
     for nm in case.get("wrap", ()):
         lines.append(f"  ${nm} = [${nm}]")
     r = case["ret"]
-    if r["kind"] == "literal":
+    if r["kind"] == "bare":
+        lines.append("  return")
+    elif r["kind"] == "literal":
         lines.append(f"  return {lit(r['value'])}")
     elif r["kind"] == "param":
         lines.append(f"  return ${r['names'][0]}")
@@ -559,6 +705,23 @@ def prop(case):
     labels = [case["syntax"], case["form"], "via-event" if case["via_event"] else "literal", f"params{n}", f"mix{mix}", "ret-" + case["ret"]["kind"]]
     if used_default:
         labels.append("default-used")
+    if _default_before_nondefault(case["sig"]) is not None:
+        labels.append("default-before-nondefault")
+        if k:
+            # positional arguments into a signature whose declaration order differs from "mandatory first"
+            labels.append("positional-into-default-before-nondefault")
+            nt = True
+    held = _members_at_end(case)
+    if held:
+        labels.append(f"return-members{len(held)}")
+        holds = any(v is not None for v in held.values())
+        labels.append("member-holds-value-at-end" if holds else "member-none-at-end")
+        if holds and case["form"] == "assign":
+            if ret_exp is None:
+                labels.append("returns-none-while-member-holds-value")
+                nt = True
+            elif not any(_skey(ret_exp) == _skey(v) for v in held.values()):
+                labels.append("returns-other-value-than-member")
     if any(p["name"] not in case["named"] and i >= k and "default" not in p for i, p in enumerate(case["sig"])):
         labels.append("omitted-no-default")
     if case["assigns"]:
